@@ -18,6 +18,7 @@ import (
 	dist "github.com/acquirecloud/golibs/kvs/distlock"
 	"github.com/acquirecloud/golibs/kvs/inmem"
 	gsync "github.com/acquirecloud/golibs/sync"
+	"github.com/acquirecloud/golibs/timeout"
 	"github.com/alicebob/miniredis/v2/server"
 
 	"verifharness/internal/kvmodel"
@@ -45,6 +46,129 @@ var plan = locksim.Plan{
 
 // TestChild runs one shard of the controlled part in a single bubble.
 func TestChild(t *testing.T) { locksim.ChildMain(t, plan) }
+
+// TestChildStorm (a process of its own, so that the only timers of the process are the lease timers of one lock):
+// goroutines sharing one Locker hand the lock to each other as fast as they can; after every hand-off (the
+// previous holder is completely out of Unlock, the new one has returned from Lock) the timer-package hook is
+// read: a holder without a pending lease timer means that the tenure will not be renewed - that holder then
+// keeps the lock for two leases while a Locker of another provider tries (so does the last holder when the
+// hand-off budget is used up). The verdict is the behavioural one: the other Locker must not get the lock.
+func TestChildStorm(t *testing.T) {
+	idx, _, _, ok := shard.Child()
+	if !ok {
+		t.Skip("not a shard child")
+	}
+	res := shard.NewResult()
+	budget := int64(150_000)
+	if os.Getenv("VERIF_TIER") == "thorough" {
+		budget = 3_000_000
+	}
+	L := []time.Duration{300 * time.Millisecond, 400 * time.Millisecond}[idx%2]
+	for attempt := 1; attempt <= 3; attempt++ {
+		cn := locktapCanary()
+		sig, what, handOffs, steered := handOffStorm(L, budget, 3+idx%3)
+		stall := cn()
+		if sig != "" && stall > L/8 && attempt < 3 {
+			res.Counters["takeover_repeated_because_of_a_stall"]++
+			continue
+		}
+		res.Evals++
+		res.Counters["handoff_storm_handoffs"] += handOffs
+		res.Counters["handoff_storm_rounds"]++
+		if steered {
+			res.Counters["handoff_storm_stopped_by_missing_lease_timer"]++
+		}
+		res.Classes = append(res.Classes, fmt.Sprintf("handoff-storm|L=%v|workers=%d", L, 3+idx%3))
+		if sig != "" {
+			if stall > L/8 {
+				res.Inconcl = append(res.Inconcl, fmt.Sprintf("hand-off storm: %s (canary stall %v)", what, stall))
+			} else {
+				res.Violation(sig, what, map[string]any{"mode": "handoff-storm", "lease": L.String(), "handoffs": handOffs})
+			}
+		}
+		break
+	}
+	shard.Emit(res)
+}
+
+func locktapCanary() func() time.Duration {
+	var worst atomic.Int64
+	done := make(chan struct{})
+	go func() {
+		for {
+			select {
+			case <-done:
+				return
+			default:
+			}
+			t := time.Now()
+			time.Sleep(2 * time.Millisecond)
+			if o := int64(time.Since(t) - 2*time.Millisecond); o > worst.Load() {
+				worst.Store(o)
+			}
+		}
+	}()
+	return func() time.Duration { close(done); return time.Duration(worst.Load()) }
+}
+
+func handOffStorm(L time.Duration, budget int64, workers int) (sig, what string, handOffs int64, steered bool) {
+	st := inmem.New()
+	p1 := dist.NewKvsLockProvider(st, "/storm/")
+	p2 := dist.NewKvsLockProvider(st, "/storm/")
+	dist.VerifSetLeaseTTL(p1, L)
+	dist.VerifSetLeaseTTL(p2, L)
+	defer p1.Shutdown()
+	defer p2.Shutdown()
+	shared, other := p1.NewLocker("x"), p2.NewLocker("x")
+	var stop atomic.Bool
+	var n atomic.Int64
+	prevDone := make(chan struct{}, 1) // token: the previous holder has returned from Unlock
+	prevDone <- struct{}{}
+	keep, release := make(chan struct{}), make(chan struct{})
+	var wg sync.WaitGroup
+	for i := 0; i < workers; i++ {
+		wg.Add(1)
+		go func(i int) {
+			defer wg.Done()
+			for !stop.Load() {
+				shared.Lock()
+				<-prevDone
+				c := n.Add(1)
+				_, pending := timeout.VerifState()
+				if pending == 0 || c >= budget {
+					if stop.CompareAndSwap(false, true) {
+						steered = pending == 0
+						close(keep)
+						<-release
+						shared.Unlock()
+						prevDone <- struct{}{}
+						return
+					}
+				}
+				if c%3 == 0 {
+					runtime.Gosched()
+				}
+				shared.Unlock()
+				prevDone <- struct{}{}
+			}
+		}(i)
+	}
+	<-keep
+	handOffs = n.Load()
+	deadline := time.Now().Add(2 * L)
+	for time.Now().Before(deadline) {
+		if other.TryLock(context.Background()) {
+			sig = "lock/two-holders"
+			what = fmt.Sprintf("real clock, lease %v: %d goroutines shared one Locker and handed the lock over %d times; the last of them kept it (it has not unlocked), yet %v later TryLock of another provider's Locker succeeded (pending lease timers seen by the hook right after the hand-off: none=%v)", L, workers, handOffs, time.Since(deadline.Add(-2*L)).Round(time.Millisecond), steered)
+			other.Unlock()
+			break
+		}
+		time.Sleep(L / 10)
+	}
+	close(release)
+	wg.Wait()
+	return
+}
 
 // ---------------------------------------------------------------- free-running part
 
@@ -337,7 +461,7 @@ func staleRenewal(L time.Duration, n int32) (sig, what string, stall time.Durati
 func TestCheck(t *testing.T) {
 	run := report.New(prop, "fault_enumeration")
 	defer run.Finish(t)
-	run.Rule("controlled: scenarios of 2-5 workers (distinct Lockers of 1-3 providers and goroutines sharing a Locker) running programs over {Lock, TryLock, LockWithCtx} inside a synctest bubble; every kvs.Storage call of the lock code is a gate, the scheduler picks one enabled action per step (release a gate normally / as 'request lost' / as 'reply lost' with up to 2 faults, cancel an attempt before or during the call, leave a critical section, expire an ownerless record) - random and PCT schedules plus exhaustive DFS of 27 two-worker configurations with <=1 fault; monitor: number of callers between acquisition return and Unlock call never exceeds 1. take-over: on the real clock with a 300/400 ms lease (hook) a caller waits 1.25-2 leases behind a holder, takes over and holds for 3 leases against a TryLock-spinning third Locker (canary-guarded); stale renewal: the answer of the previous holder's n-th renewal arrives after it unlocked and another caller acquired. unlock vs failed renewal: A's renewal is answered with an error (request lost) while A is unlocking, then B acquires and a third Locker spins. free-running: same monitor under real scheduling with the race detector on inmem and Redis(miniredis). distinct = distinct (configuration, action trace) pairs executed in the controlled part")
+	run.Rule("controlled: scenarios of 2-5 workers (distinct Lockers of 1-3 providers and goroutines sharing a Locker) running programs over {Lock, TryLock, LockWithCtx} inside a synctest bubble; every kvs.Storage call of the lock code is a gate, the scheduler picks one enabled action per step (release a gate normally / as 'request lost' / as 'reply lost' with up to 2 faults, cancel an attempt before or during the call, leave a critical section, expire an ownerless record) - random and PCT schedules plus exhaustive DFS of 27 two-worker configurations with <=1 fault; monitor: number of callers between acquisition return and Unlock call never exceeds 1. take-over: on the real clock with a 300/400 ms lease (hook) a caller waits 1.25-2 leases behind a holder, takes over and holds for 3 leases against a TryLock-spinning third Locker (canary-guarded); stale renewal: the answer of the previous holder's n-th renewal arrives after it unlocked and another caller acquired. unlock vs failed renewal: A's renewal is answered with an error (request lost) while A is unlocking, then B acquires and a third Locker spins. slow storage: the holder's storage answers every renewal slowly but inside half a lease (a caller whose context ends meanwhile gets the context's error), 4 leases against a spinning Locker. hand-off storm (own process): goroutines sharing one Locker hand the lock over 150 000 (3 000 000) times; a holder found without a pending lease timer right after a hand-off (hook), or the last one, keeps the lock for two leases against another provider's Locker. free-running: same monitor under real scheduling with the race detector on inmem and Redis(miniredis). distinct = distinct (configuration, action trace) pairs executed in the controlled part")
 	run.Assume("controlled part: frozen virtual time, so leases never expire under a live holder (the property's premise); storage operations are atomic steps there - their internal atomicity is what the free-running part and C02 look at")
 	run.Assume("an ownerless lock record (left by an injected lost reply / lost Delete) disappears only through the explicit 'expire' action, which models lease expiry")
 
@@ -348,6 +472,15 @@ func TestCheck(t *testing.T) {
 	nsh := runtime.NumCPU()
 	shard.Run(run, "TestChild", "random", nsh, 45*time.Minute)
 	shard.Run(run, "TestChild", "dfs", nsh, 45*time.Minute)
+	var swg sync.WaitGroup
+	swg.Add(1)
+	go func() { // hand-off storms, one process each (they run beside everything below)
+		defer swg.Done()
+		for c := range shard.Run(run, "TestChildStorm", "storm", run.Pick(4, 8), 30*time.Minute, "VERIF_TIER="+map[bool]string{true: "thorough", false: "quick"}[run.Thorough()]) {
+			run.DistinctStr(c)
+		}
+	}()
+	defer swg.Wait()
 
 	// take-over scenarios on the real clock (they mostly sleep; run beside the free-running part)
 	var twg sync.WaitGroup
@@ -430,6 +563,35 @@ func TestCheck(t *testing.T) {
 				run.DistinctStr(fmt.Sprint("unlock-vs-failed-renewal", L, 1+i%2))
 				if o.Sig != "" {
 					run.Violation("lock/two-holders", "real clock: "+o.What, map[string]any{"mode": "unlock-vs-failed-renewal", "lease": L.String(), "renewal": 1 + i%2})
+				}
+				return
+			}
+		}(i)
+	}
+	// a storage that answers the renewals slowly (inside half a lease). Each scenario blocks a worker of the timer
+	// pool for a good part of the time: only a few of them run in this process
+	for i := 0; i < 3; i++ {
+		twg.Add(1)
+		go func(i int) {
+			defer twg.Done()
+			L := []time.Duration{time.Second, 600 * time.Millisecond, 800 * time.Millisecond}[i]
+			before, after := []time.Duration{0, L / 6, L / 8}[i], []time.Duration{3 * L / 10, 0, L / 8}[i]
+			for attempt := 1; ; attempt++ {
+				o := locktap.SlowStorageTenure(L, before, after)
+				run.Max("canary_worst_stall_us", int64(o.Stall/time.Microsecond))
+				if o.Sig != "" && o.Stall > L/16 {
+					if attempt < 3 {
+						run.Add("takeover_repeated_because_of_a_stall", 1)
+						continue
+					}
+					run.Inconclusive(fmt.Sprintf("slow-storage-tenure: %s (canary stall %v)", o.What, o.Stall))
+					return
+				}
+				run.Eval(1)
+				run.Add("slow_storage_tenure_scenarios", 1)
+				run.DistinctStr(fmt.Sprint("slow-storage-tenure", L, before, after))
+				if o.Sig != "" {
+					run.Violation("lock/two-holders", "real clock: "+o.What, map[string]any{"mode": "slow-storage-tenure", "lease": L.String(), "before": before.String(), "after": after.String()})
 				}
 				return
 			}
